@@ -60,28 +60,90 @@ def replay_kani(o, job, scratch, out):
         o.status = 'known'
 
 
+def codec_models():
+    """tokio-util's LengthDelimitedCodec builder as a record of the calls made on it: the codec handed to FramedRead/FramedWrite
+    carries every builder call (name, argument) that shaped it, through whatever helper built it"""
+    def m_builder(ex, p, call, k):
+        k(p, Sym(f'ldc_builder{p.seq("ldc_builder")}', 'length_delimited::Builder').with_ov('calls', ()))
+
+    def m_set(ex, p, call, k):
+        name = call.short.rsplit('::', 1)[-1]
+        ptr = call.args[0]
+        b = ex.deref(p, ptr)
+        if not isinstance(b, Sym) or b.get_ov('calls') is None:
+            raise Unmodelled(f'builder call {name} on {vrepr(b)}')
+        arg = call.args[1] if len(call.args) > 1 else None
+        p.events.append(Event('builder', name, (arg,)))
+        ex.store(p, ptr, b.with_ov('calls', b.get_ov('calls') + ((name, arg),)))
+        k(p, ptr)
+
+    def m_new_codec(ex, p, call, k):
+        b = ex.deref(p, call.args[0])
+        if not isinstance(b, Sym) or b.get_ov('calls') is None:
+            raise Unmodelled(f'new_codec on {vrepr(b)}')
+        k(p, Sym(f'codec{p.seq("codec")}', 'LengthDelimitedCodec').with_ov('calls', b.get_ov('calls')))
+
+    def m_default_codec(ex, p, call, k):
+        k(p, Sym(f'codec{p.seq("codec")}', 'LengthDelimitedCodec').with_ov('calls', ()))
+
+    def m_clone(ex, p, call, k):
+        k(p, ex.deref(p, call.args[0]))
+
+    def m_framed(ex, p, call, k):
+        kind = 'write' if 'FramedWrite' in call.short else 'read'
+        p.events.append(Event('framed', kind, (call.args[0], call.args[1])))
+        k(p, Sym(f'framed_{kind}{p.seq("framed")}', call.retty))
+    B = r'length_delimited::Builder::'
+    return [(r'LengthDelimitedCodec::builder$|' + B + r'new$', m_builder),
+            (B + r'(max_frame_length|length_field_length|length_field_type|length_field_offset|length_adjustment|num_skip|big_endian|little_endian|native_endian)(::<.*>)?$', m_set),
+            (B + r'new_codec$', m_new_codec), (r'LengthDelimitedCodec::new$', m_default_codec),
+            (r'<LengthDelimitedCodec as (std::clone::)?Clone>::clone$|<length_delimited::Builder as (std::clone::)?Clone>::clone$', m_clone),
+            (r'Framed(Read|Write)::new$', m_framed)]
+
+
+U32MAX = (1 << 32) - 1
+
+
+def codec_verdict(ex, r, codec, own_d, own_v):
+    """None if `codec` is 'u32 big-endian length prefix, no offsets, limit = own max_frame_size (None = no limit the prefix can express)'
+    on path r; otherwise (kind, text) with kind in {'violated', 'inconclusive'}"""
+    calls = codec.get_ov('calls') if isinstance(codec, Sym) else None
+    if calls is None:
+        return 'inconclusive', f'the codec {vrepr(codec)} is not built by a LengthDelimitedCodec builder this obligation can follow'
+    names = [n for n, _ in calls]
+    lf = [a for n, a in calls if n in ('length_field_length', 'length_field_type')]
+    if any(n in names for n in ('little_endian', 'native_endian', 'length_adjustment', 'length_field_offset', 'num_skip')) or 'length_field_type' in names:
+        return 'violated', f'frame codec is not "4-byte big-endian length prefix, no offset/adjustment": builder calls {names}'
+    if len(lf) != 1 or not isinstance(lf[0], z3.ExprRef) or e2.solve(r.pc + [lf[0] != 4], want_model=False)[0] != 'unsat':
+        return 'violated', f'frame codec is not "4-byte big-endian length prefix, no offset/adjustment": builder calls {names}'
+    mf = [a for n, a in calls if n == 'max_frame_length']
+    if not mf:
+        return 'violated', 'the codec keeps tokio-util\'s default limit (8 MiB): the configured max_frame_size is not applied'
+    lim = mf[-1]
+    if not isinstance(lim, z3.ExprRef):
+        return 'inconclusive', f'max_frame_length({vrepr(lim)})'
+    if e2.solve(r.pc + [own_d == 1, lim != own_v], want_model=False)[0] != 'unsat':
+        if not any(str(own_v) == str(x) or str(own_d) == str(x) for x in e2.z3vars(lim) + [y for c in r.pc for y in e2.z3vars(c)]) and not z3.is_bv_value(z3.simplify(lim)):
+            return 'inconclusive', f'the limit {vrepr(lim)} does not visibly stem from the own configuration\'s max_frame_size (different representation?)'
+        return 'violated', f'the configured max_frame_size (Some(m)) is not what the codec enforces: max_frame_length({vrepr(z3.simplify(lim))})'
+    if e2.solve(r.pc + [own_d == 0, z3.ULT(lim, z3.BitVecVal(U32MAX, 64))], want_model=False)[0] != 'unsat':
+        return 'violated', f'max_frame_size = None (no limit) still enforces a limit below what the 4-byte prefix can express: max_frame_length({vrepr(z3.simplify(lim))})'
+    return None
+
+
 def ob_codec_wiring(report):
     def body(ob):
         exs, total = [], 0
 
-        def m_codec(ex, p, call, k):
-            cfg = ex.deref(p, call.args[0])
-            n = p.seq('codec')
-            p.events.append(Event('codec', 'network_message_frame_codec', (cfg,)))
-            k(p, Sym(f'codec{n}', 'LengthDelimitedCodec').with_ov('cfg', cfg))
-
-        def m_framed(ex, p, call, k):
-            kind = 'write' if 'FramedWrite' in call.short else 'read'
-            p.events.append(Event('framed', kind, (call.args[0], call.args[1])))
-            k(p, Sym(f'framed_{kind}{p.seq("framed")}', call.retty))
-
-        def bad(ex, detail, key, r):
+        def bad(ex, kind, detail, key, r):
+            if kind == 'inconclusive':
+                return ob.done(exs, 'inconclusive', detail, paths=total)
             o = ob.done(exs, 'violated', detail, path_summary(r) if r else {}, key=key, paths=total)
             o.replay = write_replay(PROP, 'codec_wiring', {'detail': detail})
             return o
-        models = [(r'(^|::)network_message_frame_codec$', m_codec), (r'Framed(Read|Write)::new$', m_framed)]
+        cidx = struct_fields('crates/anemo/src/config.rs', 'Config').index('max_frame_size')
         # caller side
-        ex = e2.executor('anemo', models, max_depth=2)
+        ex = e2.executor('anemo', codec_models(), max_depth=3)
         exs.append(ex)
         parent = find_method(ex.prog, 'Peer', 'do_rpc')
         fn = find_closure(ex.prog, parent, [0])
@@ -89,7 +151,8 @@ def ob_codec_wiring(report):
         res = ex.run(fn, args, p)
         total += len(res)
         pf = struct_fields('crates/anemo/src/network/peer.rs', 'Peer')
-        want_cfg = f'gen.0.*.{pf.index("config")}.deref'
+        own = f'{e2.upvar_base(ex, fn)}.{pf.index("config")}.deref.{cidx}'
+        own_d, own_v = z3.BitVec(own + '.discr', 64), z3.BitVec(own + '@Some.0', 64)
         seen = 0
         for r in res:
             fr = [e for e in r.events if e.kind == 'framed']
@@ -98,34 +161,47 @@ def ob_codec_wiring(report):
             seen += 1
             kinds = sorted(e.name for e in fr)
             if kinds != ['read', 'write']:
-                return bad(ex, f'do_rpc builds framed streams {kinds}, expected one writer and one reader', 'wiring-do_rpc-shape', r)
+                return bad(ex, 'violated', f'do_rpc builds framed streams {kinds}, expected one writer and one reader', 'wiring-do_rpc-shape', r)
             for e in fr:
-                codec = e.args[1]
-                cfg = codec.get_ov('cfg') if isinstance(codec, Sym) else None
-                if cfg is None or vname(cfg) != want_cfg:
-                    return bad(ex, f'do_rpc: the {e.name} side of an RPC is not built with network_message_frame_codec(own config) but with {vrepr(codec)}', f'wiring-do_rpc-{e.name}', r)
+                v = codec_verdict(ex, r, e.args[1], own_d, own_v)
+                if v:
+                    return bad(ex, v[0], f'do_rpc, {e.name} side: {v[1]}', f'wiring-do_rpc-{e.name}', r)
         if not seen:
             return ob.done(exs, 'inconclusive', 'vacuity: do_rpc never builds framed streams', paths=total)
         # callee side
-        ex2 = e2.executor('anemo', models, max_depth=2)
+        ex2 = e2.executor('anemo', codec_models(), max_depth=3)
         exs.append(ex2)
         fn2 = find_method(ex2.prog, 'BiStreamRequestHandler', 'new')
-        res2 = ex2.run(fn2, [])
+        cfgs = [a for a in fn2.args if re.search(r'\bConfig\b', fn2.decl.get(a, ''))]
+        if len(cfgs) != 1:
+            return ob.done(exs, 'inconclusive', f'BiStreamRequestHandler::new does not take exactly one configuration ({len(cfgs)})', paths=total)
+        cell = ('H', 'cfg', 'config::Config')
+        a2 = []
+        for a in fn2.args:
+            if a == cfgs[0]:
+                t = fn2.decl[a].strip()
+                a2.append(Ptr(cell) if t.startswith('&') else Sym('cfg', 'config::Config'))
+            else:
+                a2.append(ex2.fresh('in_' + a.lstrip('_'), fn2.decl.get(a, '')))
+        res2 = ex2.run(fn2, a2)
         total += len(res2)
+        own_d2, own_v2 = z3.BitVec(f'cfg.{cidx}.discr', 64), z3.BitVec(f'cfg.{cidx}@Some.0', 64)
         for r in res2:
             fr = [e for e in r.events if e.kind == 'framed']
             if r.tag != 'return' or sorted(e.name for e in fr) != ['read', 'write']:
-                return bad(ex2, 'BiStreamRequestHandler::new does not build one writer and one reader', 'wiring-handler-shape', r)
+                return bad(ex2, 'violated', 'BiStreamRequestHandler::new does not build one writer and one reader', 'wiring-handler-shape', r)
             for e in fr:
-                codec = e.args[1]
-                cfg = codec.get_ov('cfg') if isinstance(codec, Sym) else None
-                if cfg is None or vname(cfg) != 'in_1.*':
-                    return bad(ex2, f'BiStreamRequestHandler::new: the {e.name} side is built with {vrepr(codec)}, not network_message_frame_codec(config)', f'wiring-handler-{e.name}', r)
-            # the handler's send half wraps the send stream, the recv half the recv stream
+                v = codec_verdict(ex2, r, e.args[1], own_d2, own_v2)
+                if v:
+                    return bad(ex2, v[0], f'BiStreamRequestHandler::new, {e.name} side: {v[1]}', f'wiring-handler-{e.name}', r)
         # the handler is constructed with the network's own config in InboundRequestHandler::start
         ob.done(exs, 'held', '', {'do_rpc_paths': len(res), 'handler_paths': len(res2)}, paths=total)
-    return guarded(report, 'codec_built_from_own_config', 'Peer::do_rpc and BiStreamRequestHandler::new build both the writer and the reader of every stream from '
-                   'network_message_frame_codec(the network\'s own config)', ['Peer::do_rpc', 'BiStreamRequestHandler::new'], {'inline_depth': 2}, body)
+    o = guarded(report, 'codec_built_from_own_config', 'Peer::do_rpc and BiStreamRequestHandler::new: the codec given to the FramedWrite and the FramedRead of every stream is a '
+                'LengthDelimitedCodec built with length_field_length(4), big endian, no offsets, and max_frame_length = the own configuration\'s max_frame_size '
+                '(None => at least 2^32-1, all the prefix can express), through whatever helper builds it', ['Peer::do_rpc', 'BiStreamRequestHandler::new', 'network_message_frame_codec (inlined)'],
+                {'inline_depth': 3, 'limit': 'all usize'}, body)
+    o.claim = 'C15-codec-parameters'
+    return o
 
 
 def ob_codec_builder(report):
@@ -163,8 +239,10 @@ def ob_codec_builder(report):
         if seen != {'some', 'none'}:
             return ob.done([ex], 'inconclusive', f'vacuity: {seen}', paths=len(res))
         ob.done([ex], 'held', '', {'paths': len(res)}, paths=len(res))
-    return guarded(report, 'codec_builder_calls', 'network_message_frame_codec: length_field_length(4), big_endian, no offsets; Some(m) => max_frame_length(m) exactly',
-                   ['network_message_frame_codec', 'Config::max_frame_size'], {'inline_depth': 2}, body)
+    o = guarded(report, 'codec_builder_calls', 'network_message_frame_codec: length_field_length(4), big_endian, no offsets; Some(m) => max_frame_length(m) exactly',
+                ['network_message_frame_codec', 'Config::max_frame_size'], {'inline_depth': 2}, body)
+    o.claim = 'C15-codec-parameters'       # the same parameters are decided end to end by codec_built_from_own_config when the helper has another shape
+    return o
 
 
 def implied_(ex, pc, c):
